@@ -244,5 +244,23 @@ CHECKS["C03"] = {
             "slivers, cancellation in fast_2d_point_in_simplex (see known_findings.json).",
     "technique": T,
 }
+CHECKS["C04"] = {
+    "level": "proof",
+    "text": "Kernel-checked theorems over every oracle environment and every op list for the LearnerND bookkeeping model "
+            "(LND.lean; triangulation, loss, volumes, chosen point as oracles): keys of _losses = simplices (given exact "
+            "(deleted, added) reports), vertices = evaluated points, loss() = max, corners first, queue in SortedKeyList order, "
+            "queue complete and sound (every live key has an entry; every entry of a current simplex carries the current "
+            "(sub)loss = vol(sub)/vol(simplex)*loss), pop returns a live entry of maximal priority, with nothing pending ask "
+            "refines a simplex of maximal loss and reports that loss. lnd_ask_fresh (returned points distinct and unknown) is "
+            "_partial (corner prefix only). Tie: real LearnerND in bit-exact lock-step (2-D/3-D, rect/ConvexHull, 3 losses, "
+            "scalar/vector, runner-like interleavings, non-committing asks, discards). Search: the clauses of C04 on the real "
+            "learner after every op with exact rational geometry.",
+    "design_ref": "DESIGN.md section 6 C04",
+    "note": "Trusted: Lean kernel, standard axioms, hand model LND.lean tied by differential testing, the monkeypatch recorder, "
+            "CPython round(x,8) reproduced from bit patterns. Hypotheses: truthful combinatorics of the (sub)triangulations "
+            "(C03), ghost geomOK for completeness; remove_unfinished covered since fix e79ba45. Known findings: pending point on "
+            "a hull face re-proposed (ValueError), degenerate triangulation for 1e6-aspect boxes.",
+    "technique": T,
+}
 _PENDING = "machinery for this property is not built yet in this commit (work in progress; see DESIGN.md section 9)"
 NOT_APPLICABLE = {f"C{i:02d}": _PENDING for i in range(1, 21) if f"C{i:02d}" not in CHECKS}
